@@ -1,7 +1,7 @@
 #!/bin/sh
 # tools/universe.sh create <name> | sync <name> | remove <name>
 # A "universe" is a private pair  /var/tmp/u-<name>/{repo,verif}:  a git worktree of /repo (HEAD) and a copy of
-# /verif (harness/target seeded by hard links so the first build is warm).  Mutation self-tests apply a patch to
+# /verif (harness/target seeded by a real copy so the first build is warm).  Mutation self-tests apply a patch to
 # the universe's repo and run the universe's ./check — nothing in /repo or /verif is touched.
 set -e
 cmd="$1"; name="$2"; U="/var/tmp/u-$name"
@@ -10,7 +10,9 @@ case "$cmd" in
     mkdir -p "$U"
     git -C /repo worktree add --detach "$U/repo" HEAD >/dev/null
     rsync -a --exclude "harness/target*" --exclude .git --exclude replays --exclude .locks /verif/ "$U/verif/"
-    if [ -d /verif/harness/target ]; then cp -al /verif/harness/target "$U/verif/harness/target" 2>/dev/null || cp -a /verif/harness/target "$U/verif/harness/target"; fi
+    # a REAL copy (never hard links: cargo rewrites .fingerprint files in place, which poisoned the shared target once);
+    # incremental caches are left out to save space
+    if [ -d /verif/harness/target ]; then mkdir -p "$U/verif/harness/target"; rsync -a --exclude incremental /verif/harness/target/ "$U/verif/harness/target/"; fi
     echo "$U" ;;
   sync)
     rsync -a --exclude "harness/target*" --exclude .git --exclude replays --exclude .locks /verif/ "$U/verif/"
